@@ -13,12 +13,33 @@ for c in ${@:-C01 C02 C03 C04 C05 C06 C07 C08 C09 C10 C11 C12 C13 C14 C15 C16 C1
   echo "$c exit=$? $(grep -E "^$c quick" "$B/run-$c.log" | cut -c1-160)"
 done
 OUT=${OUT:-$B/report.txt}
-( cd "$B/lib-cov" && find . -name '*.gcda' | while read f; do
-    d=$(dirname "$f"); gcov -p -o "$d" "$f" > /dev/null 2>&1; done
-  for g in *src#djinterop#*.gcov; do
-    [ -f "$g" ] || continue
-    n=$(grep -c '^ *#####' "$g"); t=$(grep -cE '^ *([0-9]+\*?|#####):' "$g")
-    echo "== $(echo "$g" | sed 's/#/\//g; s/.gcov$//; s/^.*src\/djinterop/src\/djinterop/') uncovered=$n of $t"
-    grep -n '^ *#####' "$g" | sed 's/^[0-9]*: *#####: *//' | cut -c1-150
-  done ) > "$OUT"
+# one .gcov per (translation unit, source) pair (-l), merged per source: a line counts as executed if any unit executed it
+( cd "$B/lib-cov" && rm -f *.gcov && find . -name '*.gcda' | while read f; do
+    d=$(dirname "$f"); gcov -l -p -o "$d" "$f" > /dev/null 2>&1; done
+  python3 - <<'PY'
+import glob, re, collections
+src = collections.defaultdict(dict)   # source -> line -> (executed, text)
+for g in glob.glob('*.gcov'):
+    name = None
+    for l in open(g, errors='replace'):
+        m = re.match(r'^\s*([^:]+):\s*(\d+):(.*)$', l)
+        if not m: continue
+        cnt, ln, text = m.group(1).strip(), int(m.group(2)), m.group(3)
+        if ln == 0:
+            if text.startswith('Source:'): name = text[7:]
+            continue
+        if name is None or '/src/djinterop/' not in name or cnt == '-': continue
+        key = name[name.index('/src/djinterop/') + 1:]
+        hit = cnt not in ('#####', '=====')
+        old = src[key].get(ln)
+        src[key][ln] = (hit or (old[0] if old else False), text)
+tu = tt = 0
+for key in sorted(src):
+    lines = src[key]; unc = [(ln, t) for ln, (h, t) in sorted(lines.items()) if not h]
+    tu += len(unc); tt += len(lines)
+    print("== %s uncovered=%d of %d" % (key, len(unc), len(lines)))
+    for ln, t in unc: print("%d:%s" % (ln, t[:150]))
+print("== TOTAL uncovered=%d of %d" % (tu, tt))
+PY
+) > "$OUT"
 echo "report: $OUT"
